@@ -22,6 +22,14 @@ type zzOpSlice []string
 
 var zzOpTarget = 7
 
+// zzOpNumLike has the method set of json.Number's numeric side without being one.
+type zzOpNumLike struct{ v float64 }
+
+func (n zzOpNumLike) Float64() (float64, error) { return n.v, nil }
+func (n *zzOpNumLike) Int64() (int64, error)    { return int64(n.v), nil }
+
+var zzOpPointee interface{} = map[string]interface{}{"a": 1.0}
+
 // zzOpaqueProtos builds the non-JSON leaf prototypes: one value per Go type
 // family that encoding/json never produces for interface{}.
 func zzOpaqueProtos() []interface{} {
@@ -51,6 +59,9 @@ func zzOpaqueProtos() []interface{} {
 		nilSlice,                            // 19 nil []interface{}
 		map[string]string{"a": "b"},         // 20 map[string]string
 		[]int{1},                            // 21 []int
+		zzOpNumLike{v: 2},                   // 22 a type with a Float64() (float64, error) method
+		(*zzOpNumLike)(nil),                 // 23 typed nil pointer whose type has number-like methods
+		&zzOpPointee,                        // 24 *interface{} pointing at a JSON object (what callers hand to json.Unmarshal)
 	}
 }
 
